@@ -5,7 +5,11 @@ Tokens are space separated; strings are dot-separated hexadecimal code points (`
 import HtmlVerif.Model.Tree
 import HtmlVerif.Model.Render
 import HtmlVerif.Model.Attrs
+<<<<<<< HEAD
 import HtmlVerif.Model.Hook
+=======
+import HtmlVerif.Model.Children
+>>>>>>> c14
 
 namespace HtmlVerif.Wire
 open HtmlVerif
@@ -215,6 +219,145 @@ def encErr : Err → String
 def encExcept {α} (f : α → String) : Except Err α → String
   | .ok a => "ok " ++ f a
   | .error e => "err " ++ encErr e
+
+/-! ### C14: argument values, stored elements, operation histories (appended) -/
+
+def int : P Int := do
+  let t ← next
+  match t.toInt? with
+  | some n => pure n
+  | none => throw s!"bad int {t}"
+
+/-- `_` = None -/
+def optInt : P (Option Int) := do
+  match (← peek) with
+  | some "_" => let _ ← next; pure none
+  | _ => some <$> int
+
+def numKind : P NumKind := do
+  let t ← next
+  match t with
+  | "i" => pure .int
+  | "f" => pure .float
+  | "b" => pure .bool
+  | _ => throw s!"bad numkind {t}"
+
+def seqKind : P SeqKind := do
+  let t ← next
+  match t with
+  | "bytes" => pure .bytes
+  | "range" => pure .range
+  | "set" => pure .set
+  | "dict" => pure .dict
+  | "gen" => pure .gen
+  | _ => throw s!"bad seqkind {t}"
+
+mutual
+  /-- `none` | `num k txt` | `node <node>` | `list [ … ]` | `tuple [ … ]` | `tl [ … ]` | `seq kind [ … ]` | `bad k` -/
+  partial def arg : P Arg := do
+    let t ← next
+    match t with
+    | "none" => pure .none
+    | "num" => do let k ← numKind; let s ← str; pure (.num k s)
+    | "node" => .node <$> node
+    | "list" => .list <$> args
+    | "tuple" => .tuple <$> args
+    | "tl" => .taglist <$> args
+    | "seq" => do let k ← seqKind; let xs ← args; pure (.seqLike k xs)
+    | "bad" => .bad <$> nat
+    | _ => throw s!"bad arg {t}"
+  partial def args : P Args := do
+    expect "["
+    let rec loop (acc : Array Arg) : P Args := do
+      match (← peek) with
+      | some "]" => let _ ← next; pure (Args.ofList acc.toList)
+      | _ => let x ← arg; loop (acc.push x)
+    loop #[]
+end
+
+def argList : P (List Arg) := Args.toList <$> args
+
+/-- `n <node>` | `r <arg>` -/
+def stored : P Stored := do
+  let t ← next
+  match t with
+  | "n" => .node <$> node
+  | "r" => .raw <$> arg
+  | _ => throw s!"bad stored {t}"
+
+/-- a stored element followed by the implementation's `is_tag_node` verdict -/
+def storedV : P (Stored × Bool) := do
+  let x ← stored
+  let b ← bool
+  pure (x, b)
+
+/-- `v <arg>` | `self` | `inl [ … ] [ … ]` -/
+def oarg : P OArg := do
+  let t ← next
+  match t with
+  | "v" => .val <$> arg
+  | "self" => pure .self
+  | "inl" => do let a ← argList; let b ← argList; pure (.inList a b)
+  | _ => throw s!"bad oarg {t}"
+
+def childOp : P Op := do
+  let t ← next
+  match t with
+  | "init" => .init <$> argList
+  | "extend" => .extend <$> oarg
+  | "append" => .append <$> listOf oarg
+  | "insert" => do let i ← int; let a ← oarg; pure (.insert i a)
+  | "add" => .add <$> oarg
+  | "radd" => .radd <$> oarg
+  | "iadd" => .iadd <$> oarg
+  | "slice" => do let a ← optInt; let b ← optInt; let c ← optInt; pure (.slice a b c)
+  | "mul" => .mul <$> int
+  | "rmul" => .rmul <$> int
+  | "imul" => .imul <$> int
+  | _ => throw s!"bad child op {t}"
+
+def encNumKind : NumKind → String
+  | .int => "i"
+  | .float => "f"
+  | .bool => "b"
+
+def encSeqKind : SeqKind → String
+  | .bytes => "bytes"
+  | .range => "range"
+  | .set => "set"
+  | .dict => "dict"
+  | .gen => "gen"
+
+mutual
+  partial def encArg : Arg → String
+    | .none => "none"
+    | .num k s => "num " ++ encNumKind k ++ " " ++ encStr s
+    | .node n => "node " ++ encNode n
+    | .list xs => "list " ++ encArgs xs
+    | .tuple xs => "tuple " ++ encArgs xs
+    | .taglist xs => "tl " ++ encArgs xs
+    | .seqLike k xs => "seq " ++ encSeqKind k ++ " " ++ encArgs xs
+    | .bad k => "bad " ++ toString k
+  partial def encArgs (xs : Args) : String :=
+    encList (xs.toList.map encArg)
+end
+
+def encStored : Stored → String
+  | .node n => "n " ++ encNode n
+  | .raw a => "r " ++ encArg a
+
+def encStoredList (s : TL) : String := encList (s.map encStored)
+
+/-- the list with the model's `is_tag_node` verdict after every element -/
+def encState (s : TL) : String :=
+  encList (s.map fun x => encStored x ++ " " ++ encBool x.isTagNode)
+
+def encResult : Except Err Unit → String
+  | .ok _ => "ok"
+  | .error e => "err " ++ encErr e
+
+def encTrace (tr : List StepOut) : String :=
+  encList (tr.map fun o => encResult o.result ++ " " ++ encState o.state)
 
 end HtmlVerif.Wire
 
